@@ -1,13 +1,13 @@
 #!/bin/bash
-# usage: seedtest.sh <ID> <patch.diff> [tier]  : apply a seeded change to /repo, run the check, undo it
+# usage: seedtest.sh <ID> <patch.diff> [tier] : apply a seeded change to a SCRATCH COPY of /repo's HEAD, run the check on it
 ID=$1; P=$2; TIER=${3:-quick}
-cd /repo || exit 2
-git diff --quiet || { echo "/repo is dirty"; exit 2; }
+T=/tmp/seedt.$$; rm -rf $T; mkdir -p $T; git -C /repo archive HEAD | tar -x -C $T
+cd $T && git init -q . && git add -A >/dev/null 2>&1 && git -c user.email=x -c user.name=x commit -qm base >/dev/null
 if ! git apply "$P" 2>/dev/null; then
-  git apply -3 "$P" 2>&1 | tail -2 || { echo "PATCH DOES NOT APPLY"; git checkout -- .; exit 3; }
-  git reset -q
+  git apply -3 "$P" 2>&1 | tail -2
+  if git diff --name-only --diff-filter=U | grep -q .; then echo "PATCH DOES NOT APPLY CLEANLY"; rm -rf $T; exit 3; fi
 fi
 git diff --stat | tail -1
-cd /verif && timeout ${MUT_TIMEOUT:-1200} ./check $ID $TIER 2>&1 | grep -v "^KNOWN-FINDING" | head -${LINES_MAX:-8}
+cd /verif && VERIF_REPO=$T VERIF_WORKTAG=.seed$$ timeout ${MUT_TIMEOUT:-1200} ./check $ID $TIER 2>&1 | grep -v "^KNOWN-FINDING" | head -${LINES_MAX:-8}
 echo "rc=${PIPESTATUS[0]}"
-git -C /repo checkout -- . ; git -C /repo status --short | head -3
+rm -rf $T
